@@ -545,13 +545,33 @@ func genObject(rng *hx.Rng, name string, pool *structPool, marker string, o genO
 			ret = genIdlType(rng, 1+rng.Intn(3), pool, false).print()
 		}
 		m := oMethod{Uid: uid(), Name: actName(i), Params: tupleOf(ps...).print(), Ret: ret}
-		switch rng.Intn(3) {
-		case 0:
-			m.PNames = nil
-		default:
+		// MetaMethod.Parameters (the descriptions of the parameters) is independent of the parameter
+		// tuple: absent (nil), empty, shorter than the tuple, complete, or longer than it
+		nd := len(ps)
+		k := rng.Intn(9)
+		if o.usedAct == nil && k >= 2 { // a family built for one defect switch: no description or a complete one
+			k = 8
+		}
+		switch k {
+		case 0, 1:
+			nd = -1
+		case 2:
+			nd = 0
+		case 3:
+			if len(ps) >= 2 {
+				nd = 1 + rng.Intn(len(ps)-1)
+			}
+		case 4:
+			nd = len(ps) + 1 + rng.Intn(2)
+		}
+		if nd >= 0 {
 			m.PNames = []string{}
 			seen := map[string]bool{}
-			for range ps {
+			for len(m.PNames) < nd {
+				if rng.Chance(0.06) { // a description without a name: CleanVarName writes P<i>
+					m.PNames = append(m.PNames, "")
+					continue
+				}
 				n := draw(roleParam)
 				for seen[n] {
 					n = draw(roleParam)
@@ -681,12 +701,58 @@ func sameActions(a, b oObject) string {
 	return ""
 }
 
+// rtFail: the round-trip comparison of the property for one package (objs as given to GenerateIDL,
+// o what ParseIDL made of the generated text); "" = every interface came back with its actions
+func rtFail(objs []oObject, o parseObs) string {
+	fail := ""
+	switch {
+	case o.Res == 2:
+		fail = "ParseIDL kills the process (stack overflow)"
+	case o.Res == 3:
+		fail = "ParseIDL panics: " + o.Error
+	case o.Res == 4:
+		fail = "ParseIDL does not return"
+	case o.Res == 0:
+		fail = "ParseIDL rejects the generated text: " + o.Error
+	default:
+		if len(o.Objs) != len(objs) {
+			return fmt.Sprintf("%d interfaces came back as %d", len(objs), len(o.Objs))
+		}
+		for _, want := range objs {
+			found := false
+			for _, got := range o.Objs {
+				if got.Name == want.Name {
+					found = true
+					if d := sameActions(want, got); d != "" {
+						fail = "interface " + want.Name + ": " + d
+					}
+				}
+			}
+			if !found {
+				fail = "interface " + want.Name + " is missing"
+			}
+		}
+	}
+	return fail
+}
+
+// c18Pending: a failure of the round-trip oracle, reported after sorting: prio 0 = the detail is a
+// self-contained failing input (a package that fails alone, or a sequence run in a fresh process),
+// prio 1 = a package that fails only after the history of the harness process, prio 2 = a package
+// built to hit a recorded weakness (classified under its switch)
+type c18Pending struct {
+	kind, det, known string
+	prio, idx        int
+}
+
 type rtCase struct {
 	pkg   string
 	objs  []oObject
 	known string // non-empty: built to hit this defect switch
 	desc  string
 	nontr bool
+	again bool // a package generated a second time in the harness process
+	first int  // ... and the index of its first time
 }
 
 var idlVocab = []string{"interface", "struct", "enum", "end", "fn", "sig", "prop", "package", "(", ")", ":", ",", "->", "//", "//uid:", "uid:",
@@ -699,15 +765,32 @@ func runC18(res *hx.Result, rng *hx.Rng, tier string, outdir string) {
 		"Go keywords and predeclared names, variations in case / one character more or less / underscores / digits, and every vocabulary word once in every role; " +
 		"signatures over scalars, lists, maps, tuples and a pool of named structs shared between actions and nested in containers) through " +
 		"GenerateIDL and ParseIDL; parser: the generated texts, mutations of them (character and token level), token soup over the IDL vocabulary, " +
-		"hand-written corner texts; non-trivial = a struct is used by >= 2 actions or nested in a container, or the text is a mutation; " +
+		"hand-written corner texts; parameter descriptions absent / empty / partial / complete / longer than the parameter tuple; sequences of conversions in one fresh process " +
+		"(a package with a struct name clash, another recorded weak input or an invalid signature first, then ordinary packages made of the same signature strings; the same package " +
+		"repeated; packages sharing structs; objects over a struct pool and over its twin with the same names) where every ordinary step must round-trip; non-trivial = a struct is used by >= 2 actions or nested in a container, or the text is a mutation; " +
 		"distinct by sha256 of the canonical case"
-	nRT, nText := 260, 900
+	nRT, nText := 260, 750
 	if tier == "thorough" {
 		nRT, nText = 9000, 45000
 	}
 	cf := hx.NewCases(outdir, "C18", "From QV Require Import Sig SigParse Idl C18Run.", "mismatches cfg gcases pcases", res,
 		"gcases", "gcase", "pcases", "pcase")
 	cf.Extra = append(cf.Extra, "Open Scope string_scope.")
+	// the case files have a budget: a case above 40 kB, and everything after 4 MB (quick tier), is
+	// left to the oracles alone (never reached on the pinned code; a change that makes the texts
+	// grow with the history of the process would otherwise write gigabytes)
+	caseBytes, caseBudget, casesSkipped := 0, 4<<20, 0
+	if tier == "thorough" {
+		caseBudget = 200 << 20
+	}
+	addCase := func(list, term, desc string) {
+		if len(term) > 40000 || caseBytes+len(term) > caseBudget {
+			casesSkipped++
+			return
+		}
+		caseBytes += len(term)
+		cf.Add(list, term, desc)
+	}
 	// defect probe first (the case files need its verdict): the witness of
 	// C18_refuted_self_referential_struct_crash either ends the child process or is refused
 	selfRefWitness := "struct A\n a: A\nend\ninterface I\n fn f(x: A)\nend"
@@ -831,7 +914,33 @@ func runC18(res *hx.Result, rng *hx.Rng, tier string, outdir string) {
 			desc: "generated with uid 0 / non-tuple signatures allowed", nontr: true})
 	}
 
-	// ---- switch probes: the witnesses of C18_refuted_* ----
+	// ---- parameter descriptions: every tuple width 0..4 with no description (nil) and 0..width+2 descriptions ----
+	// (MetaMethod.Parameters is documentation: whatever its length, every parameter of the tuple is written)
+	ptys := []string{"f", "s", "(ii)<Pt,x,y>", "[b]", "{sI}"}
+	for k := 0; k <= 4; k++ {
+		for d := -1; d <= k+2; d++ {
+			var names []string
+			if d >= 0 {
+				names = []string{}
+				for j := 0; j < d; j++ {
+					names = append(names, []string{"x", "y", "theta", "speed", "mode", "extra", "more"}[j])
+				}
+			}
+			cases = append(cases, rtCase{pkg: "p", desc: fmt.Sprintf("%d parameter descriptions for %d parameters", d, k), nontr: true,
+				objs: []oObject{{Name: "Itf", Methods: []oMethod{{Uid: 1, Name: "f", Params: "(" + strings.Join(ptys[:k], "") + ")", Ret: "v", PNames: names}}}}})
+		}
+	}
+	// ---- the first safe packages once more, after everything above went through GenerateIDL in this process ----
+	nAgain := 0
+	for i := 0; i < nRT && nAgain < 24; i++ {
+		if cases[i].nontr {
+			c := cases[i]
+			c.desc = "again after " + strconv.Itoa(len(cases)) + " other packages: " + c.desc
+			c.again, c.first = true, i
+			cases = append(cases, c)
+			nAgain++
+		}
+	}
 
 	// ---- run GenerateIDL on every case ----
 	var texts []string
@@ -851,7 +960,7 @@ func runC18(res *hx.Result, rng *hx.Rng, tier string, outdir string) {
 			res.Fail("generate-error", fmt.Sprintf("GenerateIDL fails on a meta-object with valid signatures: %s", objsTerm(c.objs)))
 		}
 		texts = append(texts, text)
-		cf.Add("gcases", fmt.Sprintf("G %s %s %s %s", idlStr(c.pkg), objsTerm(ordered), hx.Bool(ok), idlStr(text)), "generate "+c.desc)
+		addCase("gcases", fmt.Sprintf("G %s %s %s %s", idlStr(c.pkg), objsTerm(ordered), hx.Bool(ok), idlStr(text)), "generate "+c.desc)
 	}
 
 	// ---- parser texts ----
@@ -983,43 +1092,16 @@ func runC18(res *hx.Result, rng *hx.Rng, tier string, outdir string) {
 	sw := map[string]bool{}
 	detail := map[string]string{}
 	// ---- round-trip oracle ----
+	var failing []c18Pending // reported self-contained and smallest first: the first failing input is the one to read
 	for i, c := range cases {
 		o := obs[i]
-		fail := ""
-		switch {
-		case !outs[i].ok:
+		if !outs[i].ok {
 			continue
-		case o.Res == 2:
-			fail = "ParseIDL kills the process (stack overflow)"
-		case o.Res == 3:
-			fail = "ParseIDL panics: " + o.Error
-		case o.Res == 4:
-			fail = "ParseIDL does not return"
-		case o.Res == 0:
-			fail = "ParseIDL rejects the generated text: " + o.Error
-		default:
-			if len(o.Objs) != len(c.objs) {
-				fail = fmt.Sprintf("%d interfaces came back as %d", len(c.objs), len(o.Objs))
-				break
-			}
-			for _, want := range c.objs {
-				found := false
-				for _, got := range o.Objs {
-					if got.Name == want.Name {
-						found = true
-						if d := sameActions(want, got); d != "" {
-							fail = "interface " + want.Name + ": " + d
-						}
-					}
-				}
-				if !found {
-					fail = "interface " + want.Name + " is missing"
-				}
-			}
 		}
+		fail := rtFail(c.objs, o)
 		res.Dist("roundtrip:" + map[bool]string{true: "safe", false: "unsafe:" + c.known}[c.known == ""])
 		canon := objsTerm(c.objs)
-		res.Count("RT|"+c.pkg+"|"+canon, c.nontr)
+		res.Count(map[bool]string{false: "RT|", true: "RT-again|"}[c.again]+c.pkg+"|"+canon, c.nontr)
 		if i < 3 {
 			res.Sample(fmt.Sprintf("%s -> %q -> ok=%v", canon, outs[i].text, fail == ""))
 		}
@@ -1027,14 +1109,56 @@ func runC18(res *hx.Result, rng *hx.Rng, tier string, outdir string) {
 			continue
 		}
 		det := fmt.Sprintf("meta-objects %s; generated IDL %q; %s", canon, outs[i].text, fail)
+		if c.again && c.known == "" && rtFail(cases[c.first].objs, obs[c.first]) == "" {
+			failing = append(failing, c18Pending{kind: "roundtrip-depends-on-history", prio: 1, det: fmt.Sprintf("%s. The same package round-tripped when this process generated it first (generated IDL %q); "+
+				"this is its second GenerateIDL, after %d other packages went through GenerateIDL in the process", det, outs[c.first].text, i-c.first-1)})
+			continue
+		}
 		if c.known != "" {
 			if !sw[c.known] {
 				sw[c.known] = true
 				detail[c.known] = det
 			}
-			res.FailKnown("roundtrip", det, c.known)
+			failing = append(failing, c18Pending{kind: "roundtrip", det: det, prio: 2, known: c.known})
 		} else {
-			res.Fail("roundtrip", det)
+			failing = append(failing, c18Pending{kind: "roundtrip", det: det, idx: i})
+		}
+	}
+	// the smallest failing packages of this process once more, each alone in a fresh process: a package
+	// that round-trips there fails here because of what this process generated before it
+	sort.SliceStable(failing, func(i, j int) bool { return len(failing[i].det) < len(failing[j].det) })
+	var alone [][]c18StepIn
+	var aloneOf []int
+	for j, f := range failing {
+		if f.kind == "roundtrip" && len(alone) < 16 {
+			alone = append(alone, []c18StepIn{{cases[f.idx].pkg, cases[f.idx].objs}})
+			aloneOf = append(aloneOf, j)
+		}
+	}
+	if len(alone) > 0 {
+		aouts, aerrs := runSeqs(outdir, "c18_alone.json", alone)
+		for k, j := range aloneOf {
+			f := &failing[j]
+			if aerrs[k] == "" && aouts[k][0].Ok && rtFail(cases[f.idx].objs, aouts[k][0].Parse) == "" {
+				f.kind, f.prio = "roundtrip-depends-on-history", 1
+				f.det += fmt.Sprintf(". The same package alone in a fresh process round-trips (generated IDL %q): the result depends on the %d packages this process generated before it",
+					aouts[k][0].Text, f.idx)
+			}
+		}
+	}
+	// ---- sequences of conversions, each in one fresh process ----
+	failing = append(failing, c18Sequences(res, rng, tier, outdir, addCase, cases[:nRT])...)
+	sort.SliceStable(failing, func(i, j int) bool {
+		if failing[i].prio != failing[j].prio {
+			return failing[i].prio < failing[j].prio
+		}
+		return len(failing[i].det) < len(failing[j].det)
+	})
+	for _, f := range failing {
+		if f.known != "" {
+			res.FailKnown(f.kind, f.det, f.known)
+		} else {
+			res.Fail(f.kind, f.det)
 		}
 	}
 	for _, k := range []string{"keyword_prefix_struct_name", "basic_type_struct_name", "container_prefix_struct_name", "colliding_struct_names", "non_tuple_signal_property",
@@ -1073,10 +1197,13 @@ func runC18(res *hx.Result, rng *hx.Rng, tier string, outdir string) {
 		if r > 2 {
 			continue
 		}
-		cf.Add("pcases", fmt.Sprintf("P %s %d%%N %s", idlStr(p.text), r, objsTerm(o.Objs)), "parse "+p.desc)
+		addCase("pcases", fmt.Sprintf("P %s %d%%N %s", idlStr(p.text), r, objsTerm(o.Objs)), "parse "+p.desc)
 	}
 	if !crashSeen {
 		res.Switch("self_referential_struct_crash", probe.Res == 2, fmt.Sprintf("ParseIDL on %q ends the process: %s", selfRefWitness, probe.Error))
+	}
+	if casesSkipped > 0 {
+		res.Notes = append(res.Notes, fmt.Sprintf("%d cases were not written to the case files (a case above 40 kB or the budget of %d bytes used up): oracles only", casesSkipped, caseBudget))
 	}
 	cf.Flush()
 }
